@@ -51,8 +51,10 @@ for fn, key in (("_parse_additional_properties", "additionalProperties"), ("_par
              may_raise=[("SchemaParseError", "True")], modifies=["schema", "state"], kinds={"schema": "dict"},
              props=["C20", "C10"])
 
-contract(PA + "_parse_literal", requires="is_json(literal)", returns="is_json(result)", trusted=True, props=["C07"],
-         note="strips `_x_autotitle` keys at every depth (filtering dict comprehension, recursive): bounded-checked in C07")
+contract(PA + "_parse_literal", requires="is_json(literal)", returns="is_json(result)", props=["C07"],
+         ghost={"function": "lit_of(literal)", "function_facts": True, "generalise_comprehension_facts": True}, lemmas=["JSON-INTRO", "DICT-ITEM"],
+         note="strips `_x_autotitle` keys at every depth (filtering dict comprehension, recursive); what is stripped is bounded-checked in C07, "
+              "the proof is that a JSON literal stays a JSON literal")
 
 contract("statham.schema.exceptions:FeatureNotImplementedError.unsupported_keywords", requires="True", returns="True",
          result_cls="FeatureNotImplementedError", props=["C20"])
